@@ -1,6 +1,8 @@
 import Oracle.J
 import Eru.Lock.Filter
 import Eru.Lock.Order
+import Eru.Lock.Redis
+import Eru.Lock.Etcd
 /- Oracle for the lock group (C18–C21): runs the model on the case, compares with the
    implementation's result and evaluates the specification predicates on the implementation's
    output. Not part of any model or proof. -/
@@ -137,5 +139,113 @@ def handleOrder (j : Json) : Json :=
     let multi := implEps.any fun t => (t.filter fun e => match e with | .acq _ => true | _ => false).length ≥ 2
     verdict id agree (jstrs (eps.map traceToStr)) viol
       ("locks-" ++ jstr (jget j "kind") ++ (if multi then "-multi" else if nlocks == 0 then "-none" else "-single")) (nlocks == 0)
+
+end Oracle.Lock
+
+/-! ### C18 / C19: scripted schedules on real lock objects -/
+namespace Oracle.Lock
+open Lean Oracle Eru Eru.Lock
+
+structure SCmd where
+  op : String
+  c : Nat
+  dt : Nat
+
+def scmdOfJson (j : Json) : SCmd := { op := jstr (jget j "op"), c := jnat (jget j "c"), dt := jnat (jget j "dt") }
+
+def redisCmd (c : SCmd) : Option Redis.Cmd :=
+  match c.op with
+  | "lock" => some (.lock c.c) | "trylock" => some (.tryLock c.c) | "unlock" => some (.unlock c.c)
+  | "ff" => some (.ff c.dt) | "lockasync" => some (.lockAsync c.c) | "join" => some (.join c.c)
+  | "observe" => some (.observe c.c)
+  | _ => none
+
+def etcdCmd (c : SCmd) : Option Etcd.Cmd :=
+  match c.op with
+  | "lock" => some (.lock c.c) | "trylock" => some (.tryLock c.c) | "unlock" => some (.unlock c.c)
+  | "lockasync" => some (.lockAsync c.c) | "join" => some (.join c.c)
+  | "revoke" => some (.revoke c.c) | "observe" => some (.observe c.c)
+  | _ => none
+
+/-- protocol-independent specification evaluated on the implementation's results:
+    holders = clients whose Lock/TryLock/join returned success and that have not unlocked;
+    a holder is within its lease until `acquiredAt + ttl` on the server clock (Redis) / until its
+    lease is revoked (etcd). -/
+structure SpecSt where
+  now : Nat := 0
+  holders : List (Nat × Nat) := []     -- (client, acquired at)
+  lost : List Nat := []                -- etcd: clients whose lease was revoked
+  lostAtStep : List (Nat × Nat) := []
+  viol : List String := []
+  overlap : Bool := false              -- some acquisition happened while another client was inside (lease gone)
+  queued : List Nat := []              -- waiters blocked in Lock (etcd: their key is in the queue)
+
+def withinLease (redis : Bool) (ttl : Nat) (st : SpecSt) (h : Nat × Nat) : Bool :=
+  if redis then st.now < h.2 + ttl else !st.lost.contains h.1
+
+def specStep (redis : Bool) (ttl : Nat) (st : SpecSt) (c : SCmd) (res : String) (slow : Bool) : SpecSt :=
+  let liveOthers := st.holders.filter fun h => h.1 != c.c && withinLease redis ttl st h
+  let isAcq := c.op == "lock" || c.op == "trylock" || c.op == "lockasync" || c.op == "join"
+  if isAcq && res == "acquired" then
+    let already := st.holders.any (·.1 == c.c)
+    let v := if liveOthers.isEmpty then [] else ["C18:two-holders-within-lease"]
+    let others := st.holders.filter (·.1 != c.c)
+    { st with holders := if already then st.holders else (c.c, st.now) :: st.holders, viol := st.viol ++ v,
+              overlap := st.overlap || (!already && !others.isEmpty), queued := st.queued.filter (· != c.c) }
+  else if isAcq && (res == "not-obtained" || res == "locked" || res == "timeout") then
+    -- etcd queues waiters: a key of an earlier, still blocked waiter legitimately refuses a later client
+    let behindQueue := !redis && !(st.queued.filter (· != c.c)).isEmpty
+    let v1 := if liveOthers.isEmpty && !behindQueue && c.op != "lockasync" then ["C18:refused-when-free"] else []
+    let v2 := if c.op == "trylock" && slow then ["C18:trylock-waited"] else []
+    { st with viol := st.viol ++ v1 ++ v2, queued := st.queued.filter (· != c.c) }
+  else if isAcq && res == "blocked" then
+    let behindQueue := !redis && !(st.queued.filter (· != c.c)).isEmpty
+    { st with viol := st.viol ++ (if liveOthers.isEmpty && !behindQueue then ["C18:blocked-when-free"] else []),
+              queued := c.c :: st.queued }
+  else if c.op == "unlock" then { st with holders := st.holders.filter (·.1 != c.c) }
+  else if c.op == "ff" then { st with now := st.now + c.dt }
+  else if c.op == "revoke" then { st with lost := c.c :: st.lost }
+  else if c.op == "observe" then
+    -- C19: a holder that lost its lock (TTL elapsed / lease revoked) must have been told
+    let me := st.holders.find? (·.1 == c.c)
+    match me with
+    | some h =>
+      if !withinLease redis ttl st h && res == "ctx-live" then
+        { st with viol := st.viol ++ [if redis then "C19:redis-ttl-expiry-not-signalled" else "C19:etcd-loss-not-signalled"] }
+      else if !withinLease redis ttl st h && slow then { st with viol := st.viol ++ ["C19:signalled-late"] }
+      else if withinLease redis ttl st h && res != "ctx-live" then { st with viol := st.viol ++ ["C19:cancelled-while-holding"] }
+      else st
+    | none => st
+  else st
+
+def handleSched (j : Json) : Json :=
+  let id := jget j "id"
+  let backend := jstr (jget j "backend")
+  let redis := backend == "redis"
+  let ttl := jnat (jget j "ttl_ms")
+  let n := jnat (jget j "clients")
+  let cmds := (jarr (jget j "cmds")).map scmdOfJson
+  let impl := jget j "impl"
+  let ires := strs (jget impl "res")
+  let islow := (jarr (jget impl "slow")).map jbool
+  let model : List String :=
+    if redis then
+      (Redis.replay ⟨ttl, 500⟩ Redis.init (cmds.filterMap redisCmd)).map Redis.Res.str
+    else
+      (Etcd.replay ttl Etcd.init (cmds.filterMap etcdCmd)).map Etcd.Res.str
+  let wellFormed := if redis then cmds.all (fun c => (redisCmd c).isSome) else cmds.all (fun c => (etcdCmd c).isSome)
+  let agree := wellFormed && model == ires && !jhas impl "panic"
+  let rec go (st : SpecSt) : List SCmd → List String → List Bool → SpecSt
+    | c :: cs, r :: rs, sl :: sls => go (specStep redis ttl st c r sl) cs rs sls
+    | c :: cs, r :: rs, [] => go (specStep redis ttl st c r false) cs rs []
+    | _, _, _ => st
+  let fin := go {} cmds ires islow
+  let hasAsync := cmds.any (·.op == "lockasync")
+  let hasLoss := cmds.any (fun c => c.op == "revoke" || c.op == "observe")
+  let contended := ires.any (fun r => r == "not-obtained" || r == "locked" || r == "timeout" || r == "blocked")
+  let cls := backend ++ (if hasLoss then "-loss" else if hasAsync then "-overlap" else "-seq") ++
+    (if contended then "-contended" else "") ++ (if fin.overlap then "-lease-gone" else "")
+  let _ := n
+  verdict id agree (jstrs model) fin.viol.eraseDups cls (!contended && !fin.overlap && !hasLoss)
 
 end Oracle.Lock
